@@ -446,6 +446,83 @@ pub fn gen_recreate_cycles(rng: &mut Rng, spec: SpecId) -> History {
     History { spec, world: w, block, steps }
 }
 
+/// factory whose embedded init code is given (CREATE2 with value = CALLVALUE, salt = CALLDATALOAD(0))
+pub fn factory_code_with(init: &[u8]) -> Vec<u8> {
+    let mut a = Asm::new();
+    a.op(0x61).ops(&[(init.len() >> 8) as u8, init.len() as u8]);
+    a.op(0x61).ops(&[0, 0]); // off, patched
+    a.push_u(0).op(0x39);
+    a.push_u(0).op(0x35); // salt
+    a.op(0x61).ops(&[(init.len() >> 8) as u8, init.len() as u8]);
+    a.push_u(0).op(0x34).op(0xf5).op(0x50).op(0x00);
+    let mut c = a.finish();
+    let off = c.len();
+    c[4] = (off >> 8) as u8;
+    c[5] = off as u8;
+    c.extend_from_slice(init);
+    c
+}
+
+pub const FACTORY2: Address = addr(0xfac2);
+
+/// Directed family "silent re-creation": a stored contract with storage in the database is
+/// destroyed and re-created by a factory whose init code writes nothing and deploys the same
+/// runtime, with an endowment equal to the old balance — so nonce, balance and code hash after the
+/// re-creation equal those before it and the *only* change is that the old storage is gone. The
+/// destroy and the re-create fall into one merge group or into two; slots are read / written in
+/// later groups. (pre-Cancun specs: SELFDESTRUCT really deletes)
+pub fn gen_silent_recreate(rng: &mut Rng, spec: SpecId) -> History {
+    let mut w = World::default();
+    let eth = U256::from(10u64).pow(U256::from(18u8));
+    w.accounts.insert(SENDER1, Acct { balance: eth * U256::from(1000u64), ..Default::default() });
+    let init = initcode_returning(&child_runtime());
+    w.accounts.insert(FACTORY2, Acct { nonce: 1, balance: U256::from(1000u64), code: factory_code_with(&init), ..Default::default() });
+    let salt = 1 + rng.below(2);
+    let child = FACTORY2.create2_from_code(U256::from(salt).to_be_bytes::<32>(), &init);
+    let bal = rng.below(2);
+    let mut st = BTreeMap::new();
+    st.insert(U256::from(2u8), U256::from(21u8));
+    if rng.chance(1, 2) {
+        st.insert(U256::from(3u8), U256::from(31u8));
+    }
+    w.accounts.insert(child, Acct { nonce: 1, balance: U256::from(bal), code: child_runtime(), storage: st });
+    let mut calls: Vec<ScriptCall> = vec![];
+    // optionally touch a slot first (then the bundle knows a slot), mostly not
+    if rng.chance(1, 4) {
+        calls.push(ScriptCall { to: child, value: U256::ZERO, words: vec![U256::from(2u8), U256::from(2 + rng.below(2)), U256::from(rng.below(3))], gas: 100_000 });
+    }
+    let rounds = 1 + rng.below(2);
+    for _ in 0..rounds {
+        // destroy towards someone else, then re-create with the same balance
+        calls.push(ScriptCall { to: child, value: U256::ZERO, words: vec![U256::from(1u8), U256::from_be_slice(rng.pick(&[SENDER1, NONEXISTENT]).as_slice())], gas: 100_000 });
+        calls.push(ScriptCall { to: FACTORY2, value: U256::from(bal), words: vec![U256::from(salt)], gas: 400_000 });
+    }
+    for _ in 0..rng.below(3) {
+        calls.push(ScriptCall { to: child, value: U256::ZERO, words: vec![U256::from(2u8), U256::from(2 + rng.below(2)), U256::from(rng.below(3))], gas: 100_000 });
+    }
+    let retain = !rng.chance(1, 8);
+    let pm = rng.below(3); // merge probability pm/4 (0: everything in one group)
+    let mut steps = vec![];
+    for (i, c) in calls.iter().enumerate() {
+        let saddr = addr(0x5000 + i as u16);
+        w.accounts.insert(saddr, Acct { nonce: 1, balance: U256::from(100u8), code: script_code(std::slice::from_ref(c), false), ..Default::default() });
+        let mut t = TxSpec { to: Some(saddr), gas_limit: 3_000_000, gas_price: U256::from(10u64), nonce: Some(i as u64), ..Default::default() };
+        if spec >= SpecId::LONDON {
+            t.gas_price = U256::from(1000u64);
+        }
+        steps.push(Step::Tx(t));
+        if rng.chance(pm, 4) {
+            steps.push(Step::Merge(retain));
+        }
+    }
+    if !matches!(steps.last(), Some(Step::Merge(_))) {
+        steps.push(Step::Merge(retain));
+    }
+    let mut block = BlockSpec::default();
+    block.basefee = if spec >= SpecId::LONDON { 7 } else { 0 };
+    History { spec, world: w, block, steps }
+}
+
 /// Directed family: one stored contract (pre-existing, with storage) whose two slots are written
 /// back and forth over a three-value domain, one write per transaction (sometimes two in one
 /// transaction), merges at random positions. Hits "returns to the original value", "returns to an
@@ -615,19 +692,24 @@ where
         if let Some(i) = info {
             acc.balance = i.balance;
             acc.nonce = i.nonce;
-            acc.code = match &i.code {
-                Some(c) if !c.is_empty() => c.original_bytes().to_vec(),
-                _ => {
-                    if i.code_hash == KECCAK_EMPTY || i.code_hash.is_zero() {
-                        vec![]
-                    } else {
-                        // exercise code_by_hash as well
-                        let c = db.code_by_hash(i.code_hash).map_err(|e| format!("{:?}", e))?;
-                        let b = c.original_bytes().to_vec();
-                        let _ = codes;
-                        b
+            let _ = codes;
+            let inline = match &i.code {
+                Some(c) if !c.is_empty() => Some(c.original_bytes().to_vec()),
+                _ => None,
+            };
+            acc.code = if i.code_hash == KECCAK_EMPTY || i.code_hash.is_zero() {
+                inline.clone().unwrap_or_default()
+            } else {
+                // the code is always read by its hash as well (the hash the same database just
+                // reported): both ways of reading must give the same bytes
+                let c = db.code_by_hash(i.code_hash).map_err(|e| format!("code_by_hash({}) of {}: {:?}", i.code_hash, a, e))?;
+                let by_hash = c.original_bytes().to_vec();
+                if let Some(inl) = &inline {
+                    if *inl != by_hash {
+                        return Err(format!("code_by_hash({}) of {} returns {} bytes, basic() carries {} different bytes inline", i.code_hash, a, by_hash.len(), inl.len()));
                     }
                 }
+                by_hash
             };
         }
         for s in slots {
